@@ -191,8 +191,10 @@ static void worker(int id)
         wait_turn(0);
         switch (T[id].script[k])
         {
-        case A_GET: (void)get_temporary_stack(64); break;
-        case A_INIT_CTOR: inits.push_back(new temporary_stack_initializer(64)); break;
+        // (initial sizes differ per thread and grow with the thread id: a stack left behind by a thread that asked for less
+        // is still the one a later, more demanding thread takes over)
+        case A_GET: (void)get_temporary_stack(std::size_t(64) << (2 * (id % 4))); break;
+        case A_INIT_CTOR: inits.push_back(new temporary_stack_initializer(std::size_t(64) << (2 * (id % 4)))); break;
         case A_INIT_DTOR:
             if (!inits.empty())
             {
